@@ -403,8 +403,8 @@ func init() {
 		return runPrograms(a, res, progOpts{name: "core", prop: "C03", programs: 300, maxOps: 40, tune: func(g *prog.Gen) { g.Anon = 10 }})
 	}}}
 	checks["c15"] = checkDef{"C15",
-		"programs: a read-write prelude (buckets with different owners/ACLs/policies, objects, tags) followed, after a restart with --readonly, by random mutating and reading requests of every stage-1 kind by root, admin, userplus and user callers; each step compared with Model.Gw.step and judged by a byte-exact storage snapshot (data, modes, xattrs). Non-trivial = a program whose body reaches an existing bucket; distinct by the full op list.",
-		[]checkFn{func(a lib.Args, res *lib.Result) error {
+		"raw shapes: PUT/POST/DELETE on bucket / object / new key / key with an upload in progress × every single subresource parameter and every ordered pair of them, by root and by a user a bucket policy allows everything, judged by a byte-exact storage snapshot after every request; programs: a read-write prelude (buckets with different owners/ACLs/policies, objects, tags) followed, after a restart with --readonly, by random mutating and reading requests of every stage-1 kind by root, admin, userplus and user callers; each step compared with Model.Gw.step and judged by a byte-exact storage snapshot (data, modes, xattrs). Non-trivial = a program whose body reaches an existing bucket; distinct by the full op list.",
+		[]checkFn{c15RawShapes, func(a lib.Args, res *lib.Result) error {
 			return runPrograms(a, res, progOpts{name: "readonly", prop: "C15", programs: tierN(a, 200, 2500), maxOps: 40, readonly: true,
 				setupOps: func(g *prog.Gen) []*prog.Op { return g.Prelude() }, seedOff: 15,
 				classify: func(s *prog.Step, class string) (string, string) {
